@@ -371,7 +371,7 @@ pub proof fn lemma_map_update(m: MapB, m2: MapB, w: MapW, kw2: HeapW, vw2: HeapW
         same_used_except(w.kw, kw2, ko), is_key(kw2, ko),
         kkey(kw2, ko) == kkey(w.kw, ko), knext(kw2, ko) == knext(w.kw, ko), kvoff(kw2, ko) == voff2,
         same_used_except2(w.vw, vw2, kvoff(w.kw, ko), voff2), is_val(vw2, voff2), vval(vw2, voff2) == value,
-        voff2 != kvoff(w.kw, ko) ==> vw2.slots.dom().contains(kvoff(w.kw, ko)) && vw2.slots[kvoff(w.kw, ko)].c is Free && !is_val(w.vw, voff2),
+        voff2 != kvoff(w.kw, ko) ==> !(vw2.slots.dom().contains(kvoff(w.kw, ko)) && !(vw2.slots[kvoff(w.kw, ko)].c is Free)) && !is_val(w.vw, voff2),
     ensures ({
         let w2 = MapW { kw: kw2, vw: vw2, cs: w.cs, vown: w.vown.remove(kvoff(w.kw, ko)).insert(voff2, ko) };
         map_ok(m2, w2) && is_insert(w, w2, kkey(w.kw, ko), value)
@@ -652,4 +652,54 @@ pub proof fn lemma_map_del(m: MapB, m2: MapB, w: MapW, kw2: HeapW, vw2: HeapW, k
         }
     }
 }
+} // verus!
+
+verus! {
+/// slot-level effect of write_piece on a used slot `off` (see w_write)
+pub proof fn lemma_write_effect(b: Seq<u8>, pm: PieceMgr, w: HeapW, off: nat, need: nat, c: SlotC)
+    requires heap_ok(b, pm, w), w.slots.dom().contains(off), !(w.slots[off].c is Free), is_slot_size(need), !(c is Free), !(c is Cleared),
+        need > w.slots[off].size ==> exists|ba: Seq<u8>| #[trigger] heap_ok(ba, pm, w_push(w, off)) && ba.len() == b.len(),
+    ensures ({
+        let t = w_write(w, b.len(), false, off, need, c);
+        &&& t.0.slots.dom().contains(t.1) && t.0.slots[t.1] == SlotW { size: t.2, c: c }
+        &&& t.1 != 0 && t.1 % 8 == 0
+        &&& need <= w.slots[off].size ==> t.1 == off && same_used_except(w, t.0, off)
+        &&& need > w.slots[off].size ==> {
+                &&& t.1 != off && same_used_except2(w, t.0, off, t.1)
+                &&& !(t.0.slots.dom().contains(off) && !(t.0.slots[off].c is Free))
+                &&& (!w.slots.dom().contains(t.1) || w.slots[t.1].c is Free)
+            }
+    })
+{
+    assert(slot_ok(b, off, w.slots[off]));
+    lemma_slot_bounds(b, off, w.slots[off]);
+    if need <= w.slots[off].size {
+        lemma_set_effect(w, off, SlotW { size: w.slots[off].size, c: c });
+    } else {
+        let ba = choose|ba: Seq<u8>| #[trigger] heap_ok(ba, pm, w_push(w, off)) && ba.len() == b.len();
+        let wp = w_push(w, off);
+        lemma_push_effect(b, pm, w, off);
+        lemma_alloc_effect(ba, pm, wp, need, c);
+        let t = w_alloc(wp, ba.len(), need, c);
+        lemma_sue_compose(w, wp, t.0, off, t.1);
+        // the allocated slot is not the one just freed: it is at least `need` bytes, or it is new
+        let cl = class_idx(need); let k = pop_idx(wp, need);
+        if need >= 1024 { lemma_ff_range(wp.slots, wp.lists[15], need, 0); }
+        if k < wp.lists[cl].len() {
+            lemma_member_decodes(ba, pm, wp, cl, k);
+            if need < 1024 { lemma_class_exact(need, wp.slots[t.1].size); }
+        } else {
+            lemma_tiling_append(ba.len(), wp.slots, SlotW { size: need, c: c });
+        }
+        assert(t.1 != off);
+        if w.slots.dom().contains(t.1) && !(w.slots[t.1].c is Free) {
+            assert(wp.slots.dom().contains(t.1) && !(wp.slots[t.1].c is Free));
+        }
+    }
+}
+/// an exact-size class holds only slots of exactly that size
+pub proof fn lemma_class_exact(need: nat, size: nat)
+    requires is_slot_size(need), need < 1024, is_slot_size(size), class_idx(size) == class_idx(need)
+    ensures size == need
+{}
 } // verus!
